@@ -405,6 +405,23 @@ func c03DestStore(p *Prog, fi *FuncInfo) types.Object {
 		if as, ok := x.(*ast.AssignStmt); ok && len(as.Rhs) == 1 {
 			if c, ok := ast.Unparen(as.Rhs[0]).(*ast.CallExpr); ok && p.callIs(fi.Pkg, c, "(*internal/model/core.Transactions).Get") && len(c.Args) == 1 && objOf(info, c.Args[0]) == ids[1] {
 				res = objOf(info, as.Lhs[0])
+			} else if ok {
+				// a get-or-create helper of the package called with the destination id
+				if h := p.staticCallee(fi.Pkg, c); h != nil && h.Pkg == fi.Pkg && h.Decl != nil && h.Decl.Body != nil {
+					args := argExprs(c, h)
+					ast.Inspect(h.Decl.Body, func(y ast.Node) bool {
+						hc, ok := y.(*ast.CallExpr)
+						if !ok || len(hc.Args) != 1 || !p.callIs(h.Pkg, hc, "(*internal/model/core.Transactions).Get") {
+							return true
+						}
+						for i, po := range paramObjs(h) {
+							if po != nil && objOf(h.Pkg.TypesInfo, hc.Args[0]) == po && args[i] != nil && objOf(info, args[i]) == ids[1] {
+								res = objOf(info, as.Lhs[0])
+							}
+						}
+						return true
+					})
+				}
 			}
 		}
 		return true
@@ -418,7 +435,7 @@ func c03AfterConflict(p *Prog, r *Report) {
 		return
 	}
 	info := fi.Pkg.TypesInfo
-	f := p.FlatOf(fi)
+	f := p.FlatInlExcept(fi, kStoreToTx)
 	// conflict assignment nodes
 	var conflicts []callSite
 	for _, n := range f.Nodes {
@@ -526,6 +543,94 @@ func c03AfterConflict(p *Prog, r *Report) {
 		})
 	}
 	pops := f.CallNodes("(*internal/model/core.file).PopBack", "(*internal/model/core.file).PopFront")
+	if (len(deferNode) == 0 || filesObj == nil) && len(pops) > 0 && len(pubs) > 0 {
+		// no deferred hand-over: the function may say at each return what it hands to the cleaner. With A the lists
+		// that receive popped versions and P the published slice: a return after the publication hands over
+		// A without P (the committed contents stay), every other return after a pop hands over all of A.
+		if pubSlice := publishedSlicePath(p, fi, f); pubSlice != "" {
+			A := map[string]bool{}
+			for _, n := range f.Nodes {
+				as, ok := n.Ast.(*ast.AssignStmt)
+				if !ok || n.Synth != "" || len(as.Lhs) != 1 || len(as.Rhs) != 1 {
+					continue
+				}
+				c, ok := ast.Unparen(as.Rhs[0]).(*ast.CallExpr)
+				if !ok {
+					continue
+				}
+				if id, ok := c.Fun.(*ast.Ident); !ok || id.Name != "append" {
+					continue
+				}
+				lp := f.rawPath(as.Lhs[0])
+				if lp == "" || len(c.Args) < 2 || f.rawPath(c.Args[0]) != lp {
+					continue
+				}
+				// lists of versions only (not the list of nodes to unlink)
+				if tv, ok := info.Types[as.Lhs[0]]; !ok || !strings.HasSuffix(tv.Type.String(), "model.File") {
+					continue
+				}
+				after := false
+				for _, pn := range pops {
+					if f.ReachableAfter(pn, setOf([]int{n.ID}), nil) {
+						after = true
+					}
+				}
+				if after {
+					A[lp] = true
+				}
+			}
+			explicit := len(A) > 0 && A[pubSlice]
+			okFail, okSucc := true, true
+			badFail, badSucc := "", ""
+			nRet := 0
+			for _, id := range f.ReturnNodes() {
+				rs := f.returnStmt(id)
+				if rs == nil || len(rs.Results) < 1 {
+					explicit = false
+					continue
+				}
+				C := listPaths(p, fi, f, rs.Results[0])
+				afterPub, afterPop := false, false
+				for _, pn := range pubs {
+					// (nil-facts: the failure return of a publishing helper is not reachable from its loop)
+					if f.ReachNil(f.succsOf(pn), nil)[id] {
+						afterPub = true
+					}
+				}
+				for _, pn := range pops {
+					if f.ReachableAfter(pn, setOf([]int{id}), nil) {
+						afterPop = true
+					}
+				}
+				if !afterPop {
+					continue
+				}
+				nRet++
+				// a return that can follow the publication is judged as a success return only when it cannot
+				// also be reached without it (the failure returns of the publishing helper come before its loop)
+				for lp := range A {
+					if afterPub && lp == pubSlice {
+						if C[lp] {
+							okSucc, badSucc = false, p.pos(rs)
+						}
+						continue
+					}
+					if !C[lp] {
+						okFail, badFail = false, p.pos(rs)+" (without "+lp[:strings.Index(lp+"@", "@")]+lp[strings.LastIndex(lp, "."):]+")"
+					}
+				}
+			}
+			if explicit && nRet > 0 {
+				r.Check(okFail, "C03.f", kUpdateTx+"#discard-on-failure", p.pos(fi.Decl), "every return after a pop hands all popped versions (the published ones excepted after a successful publication) to the delete list",
+					"a return hands over only part of the versions taken out of the transaction: "+badFail+"; after a failed commit their contents are never removed")
+				r.Check(okSucc, "C03.f", kUpdateTx+"#disarm-after-success", p.pos(fi.Decl), "the published versions are not handed to the cleaner after a successful commit",
+					"the return after the publication ("+badSucc+") hands the versions just committed to the cleaner: their contents are removed")
+				return
+			}
+		}
+		r.Undecided("C03.f", kUpdateTx+"#discard-on-failure", p.pos(fi.Decl), "the transaction's versions are handed to the delete list in a form the rule does not follow")
+		return
+	}
 	if len(deferNode) == 0 || filesObj == nil {
 		r.Viol("C03.f", kUpdateTx+"#discard-on-failure", p.pos(fi.Decl), "no deferred hand-over of the transaction's versions to the returned delete list: after a failed commit their contents are never removed")
 		return
@@ -654,6 +759,22 @@ func c03GuardInHelper(p *Prog, r *Report, fi *FuncInfo, cons string) bool {
 					}
 					return nil, false
 				}
+				if hifs := conflictIf(info, h.Decl.Body); hifs != nil {
+					// the verdict is produced under one if statement of the helper (inside its loop over the
+					// keys): its condition is the guard
+					v, err := env.Eval(hifs.Cond)
+					if err != nil || v.C == nil {
+						r.Undecided("C03.c", cons, p.pos(hifs.Cond), fmt.Sprintf("guard of %s not evaluable: %v", h.Key, err))
+						return true
+					}
+					got := constant.BoolVal(v.C)
+					want := snap >= 0 && latest > snap
+					if got != want {
+						good = false
+						detail = fmt.Sprintf("snapshot point %d, committed latest %d: conflict=%v, required %v", snap, latest, got, want)
+					}
+					continue
+				}
 				_, exit, err := f.WalkPath(env)
 				if err != nil {
 					r.Undecided("C03.c", cons, p.pos(h.Decl), "conflict helper "+h.Key+" not evaluable: "+err.Error())
@@ -674,4 +795,27 @@ func c03GuardInHelper(p *Prog, r *Report, fi *FuncInfo, cons string) bool {
 		r.Check(destParam >= 0, "C03.c", cons+"/destination", p.pos(call), "the helper is given the destination store", "the conflict helper is not given the destination store")
 	}
 	return true
+}
+
+// conflictIf finds the if statement whose body assigns or returns ErrTxSerialization.
+func conflictIf(info *types.Info, body *ast.BlockStmt) *ast.IfStmt {
+	var ifs *ast.IfStmt
+	ast.Inspect(body, func(x ast.Node) bool {
+		if s, ok := x.(*ast.IfStmt); ok {
+			for _, b := range s.Body.List {
+				if as, ok := b.(*ast.AssignStmt); ok && len(as.Rhs) == 1 && exprObjKey(info, as.Rhs[0]) == "fs_db.ErrTxSerialization" {
+					ifs = s
+				}
+				if rs, ok := b.(*ast.ReturnStmt); ok {
+					for _, e := range rs.Results {
+						if strings.Contains(valueKey(info, e), "fs_db.ErrTxSerialization") {
+							ifs = s
+						}
+					}
+				}
+			}
+		}
+		return true
+	})
+	return ifs
 }
